@@ -139,6 +139,26 @@ def model(prog, fn, mode, binding=None, prefix=(), depth=0, in_loop=False, impl_
             args = [bind(s.at(b).operand(a)) for a in site["args"]]
             nb = {i + 1: a for i, a in enumerate(args)}
             sites.extend(model(prog, cf, mode, nb, get_guards(), depth + 1, loop, impl_choice))
+        if not targets and cal not in prog.fns:
+            # a library adaptor that runs a closure of this function (iter().for_each(|w| bytes.write_u64_le(*w)), try_for_each, map,
+            # ..): the closure's I/O is this function's I/O, repeated once per element
+            for a in site["args"]:
+                try:
+                    ea = s.at(b).operand(a)
+                except Exception:
+                    continue
+                for node in sym.walk(ea):
+                    if node[0] == "agg" and isinstance(node[1], str) and node[1].startswith("closure:"):
+                        cid = node[1][len("closure:"):]
+                        cf = prog.fns.get(cid)
+                        if cf is None or not _touches_io(prog, cf, mode, set()):
+                            continue
+                        short = cal.rsplit("::", 1)[-1]
+                        rep_ = short in ("for_each", "try_for_each", "map", "fold", "try_fold", "for_each_mut", "all", "any", "filter_map", "flat_map", "inspect")
+                        nb = {}
+                        for ci, cv in enumerate(node[2]):
+                            nb["cap%d" % ci] = bind(cv)
+                        sites.extend(model(prog, cf, mode, {}, get_guards(), depth + 1, loop or rep_, impl_choice))
         if not targets and cal == "" and site.get("indirect") is not None and any(
                 "Sketch" in ir.pl_ty(fn, ir.op_place(a)) for a in site["args"] if ir.op_place(a) is not None):
             # call through a function pointer parameter (frequent items): an opaque item group
